@@ -9,6 +9,7 @@ import Driver.Launcher
 import Driver.PortsOut
 import Driver.Persister
 import Driver.Persist
+import Driver.ProcStack
 
 /-- `pmodel <component>`: line-protocol driver over the executable model definitions. -/
 def main (args : List String) : IO UInt32 := do
@@ -25,4 +26,5 @@ def main (args : List String) : IO UInt32 := do
   | ["persister"] => DrvPersister.main; return 0
   | ["persist"] => DrvPersist.main; return 0
   | ["restore"] => DrvPersist.mainRestore; return 0
-  | _ => IO.eprintln "usage: pmodel <expose|fault|futures|launcher|outline|persist|persister|pm|ports|portsout|restore|savable>"; return 2
+  | ["procstack"] => DrvProcStack.main; return 0
+  | _ => IO.eprintln "usage: pmodel <expose|fault|futures|launcher|outline|persist|persister|pm|ports|portsout|procstack|restore|savable>"; return 2
